@@ -335,11 +335,49 @@ fn merkle_battery() -> String {
     out.join(" ")
 }
 
+/// the same three registrations (two with equal stake) registered in every order: aggregate key, total stake and
+/// signer slots must coincide
+fn avk_orders() -> String {
+    let params = Parameters { m: 4, k: 2, phi_f: 0.5 };
+    let mut rng = ChaCha20Rng::from_seed([3u8; 32]);
+    let inits: Vec<Initializer> = [7u64, 7, 9].iter().map(|s| Initializer::new(params, *s, &mut rng)).collect();
+    let orders = [[0usize, 1, 2], [0, 2, 1], [1, 0, 2], [1, 2, 0], [2, 0, 1], [2, 1, 0]];
+    let mut reference: Option<(String, Vec<u64>)> = None;
+    let mut bad = 0;
+    for order in orders.iter() {
+        let mut key_reg = KeyRegistration::initialize();
+        for i in order.iter() {
+            let p = &inits[*i];
+            let entry = RegistrationEntry::new(p.get_verification_key_proof_of_possession_for_concatenation(), p.stake).unwrap();
+            key_reg.register_by_entry(&entry).unwrap();
+        }
+        let closed = key_reg.close_registration(&params).unwrap();
+        let maybe: Vec<Option<Signer<D>>> = inits.iter().map(|p| p.clone().try_create_signer(&closed).ok()).collect();
+        if maybe.iter().any(|s| s.is_none()) {
+            return format!("VIOLATED order {:?}: a registered party is missing from the closed registration", order);
+        }
+        let signers: Vec<Signer<D>> = maybe.into_iter().map(|s| s.unwrap()).collect();
+        let avk = format!("{:?}", Clerk::new_clerk_from_signer(&signers[0]).compute_aggregate_verification_key().to_concatenation_aggregate_verification_key().to_bytes().unwrap());
+        let msg = b"slot-probe".to_vec();
+        let slots: Vec<u64> = signers.iter().map(|s| s.create_single_signature(&msg).map(|x| x.signer_index).unwrap_or(u64::MAX)).collect();
+        match &reference {
+            None => reference = Some((avk, slots)),
+            Some((a, sl)) => {
+                if *a != avk || sl.iter().zip(slots.iter()).any(|(x, y)| *x != u64::MAX && *y != u64::MAX && x != y) {
+                    bad += 1;
+                }
+            }
+        }
+    }
+    if bad == 0 { "agree over 6 orders".to_string() } else { format!("VIOLATED {} of 5 orders differ from the first", bad) }
+}
+
 fn main() {
     let a: Vec<String> = std::env::args().skip(1).collect();
     let out = match a.first().map(|s| s.as_str()) {
         Some("index_at_m") => index_at_m(),
         Some("duplicate") => duplicate(),
+        Some("avk_orders") => avk_orders(),
         Some("merkle_index_overflow") => merkle_index_overflow(),
         Some("merkle_empty_proof") => merkle_empty_proof(),
         Some("merkle_battery") => merkle_battery(),
